@@ -6,17 +6,21 @@
            loops, the [no_change] break and the two tail extensions.  The outer [while] is not
            structurally recursive, so it runs on fuel; [Theory.mpo_fuel_suffices] shows the
            fuel handed over by [mpo_res] is always enough.
-   Part 2: [merge_slice] and [class_merger_merge] over an abstract class (every component the
-           merge looks at is a field of the record, everything it only copies is one opaque
-           number), with the three possible outcomes of the Rust code: value, [Err] (bail!)
-           and panic (assert_eq!, unreachable!, panic!).  Permitted subclasses are merged like the
+   Part 2: [merge_slice] and [class_merger_merge] over an abstract class: every component the
+           merge looks into is a field of the record; every other field of duke's ClassFile / Field /
+           Method is one opaque number in [c_rest] / [m_rest], merged row by row as the table says that
+           translate/c13_merge_table.py regenerates from the struct literals of merge.rs
+           (C13/MergeGen.v: client.f | server.f | merge_from_client | merge_eq).  Three possible
+           outcomes of the Rust code: value, [Err] (bail!) and panic (assert_eq!, unreachable!, panic!).  Permitted subclasses are merged like the
            interfaces, record components are the client's (as repaired by "fix: merging two
            versions of a class keeps its record components and permitted subclasses").
    Part 3: [merge]: the entry table Client/Server/Both built by IndexMap insertion, the
-           MANIFEST replacement, the two skip rules, class-level side annotations, byte-identical
-           pass-through, and the per-kind combination of entries both jars have.
-   Definitions only; the proofs are in Theory.v. *)
-From FB Require Export Base.Str.
+           MANIFEST replacement, the two skip rules (predicate trees regenerated from the conditions
+           in the source, evaluated by Schema.peval), class-level side annotations, byte-identical
+           pass-through, and the per-kind combination of entries both jars have; [zip_kind]: how
+           zip_impls.rs decides the kind of a zip entry from its name.
+   Definitions only; the proofs are in Theory.v, Theory2.v, Theory3.v. *)
+From FB Require Export Base.Str C13.Schema C13.MergeGen.
 
 (* ---------------------------------------------------------------------------------------- *)
 (** * Part 1: merge_preserve_order *)
@@ -108,7 +112,8 @@ Record member := mkMember {
   m_access : N;
   m_depr : bool; m_synth : bool;
   m_inv : list ann;                    (* RuntimeInvisibleAnnotations *)
-  m_rest : N                           (* everything else, opaque *)
+  m_rest : list N                      (* every other field of duke's Field / Method, one opaque number each,
+                                          in the order of field_rest_table / method_rest_table *)
 }.
 
 Record aclass := mkClass {
@@ -122,8 +127,15 @@ Record aclass := mkClass {
   c_inv : list ann;                    (* RuntimeInvisibleAnnotations *)
   c_perm : option (list str);          (* PermittedSubclasses: the permitted class names *)
   c_rec : N;                           (* record components, opaque (0 = none) *)
-  c_rest : N                           (* everything else, opaque; the merge takes the client's *)
+  c_rest : list N                      (* every other field of duke's ClassFile, one opaque number each, in
+                                          the order of class_rest_table *)
 }.
+
+(* the layout of c_rest / m_rest: the rows of the generated tables (C13/MergeGen.v, regenerated from
+   the struct literals of merge.rs on every check) whose field is not spelled out above *)
+Definition class_rest_table : table := rest_of g_class_table modelled_class_fields.
+Definition field_rest_table : table := rest_of g_field_table modelled_member_fields.
+Definition method_rest_table : table := rest_of g_method_table modelled_member_fields.
 
 (* equality tests (PartialEq of the Rust types) *)
 Fixpoint leqb {A} (eqb : A -> A -> bool) (a b : list A) : bool :=
@@ -148,7 +160,7 @@ Definition ann_eqb (a b : ann) : bool :=
 Definition member_eqb (a b : member) : bool :=
   str_eqb (m_name a) (m_name b) && str_eqb (m_desc a) (m_desc b) && N.eqb (m_access a) (m_access b)
   && Bool.eqb (m_depr a) (m_depr b) && Bool.eqb (m_synth a) (m_synth b)
-  && leqb ann_eqb (m_inv a) (m_inv b) && N.eqb (m_rest a) (m_rest b).
+  && leqb ann_eqb (m_inv a) (m_inv b) && leqb N.eqb (m_rest a) (m_rest b).
 
 Definition key := (str * str)%type.
 Definition key_eqb : key -> key -> bool := peqb str_eqb str_eqb.
@@ -185,17 +197,43 @@ Definition merge_eq {A} (eqb : A -> A -> bool) (c s : A) : out A := if eqb c s t
 Definition mark_member (m : member) (s : side) : member :=
   mkMember (m_name m) (m_desc m) (m_access m) (m_depr m) (m_synth m) (m_inv m ++ [AEnv s]) (m_rest m).
 
-(* the `inner` closure for fields and methods: the client's member, unless the deprecated /
-   synthetic flags differ (assert) *)
-Definition merge_member (c s : member) : out member :=
+(* one opaque component, as its row of the table says *)
+Definition apply_scalar (a : act) (x y : N) : out N :=
+  match a with
+  | AClient => OK x
+  | AServer => OK y
+  | AAssertEq => from_client N.eqb x y
+  | ABailEq => merge_eq N.eqb x y
+  | _ => Panic                          (* not an action on an opaque component: Theory3.rest_tables_scalar *)
+  end.
+
+(* the opaque components, row by row (a table shorter than the client's list: the client's value,
+   a server list shorter than the client's: likewise — neither happens for well-formed cases) *)
+Fixpoint merge_rest (tbl : table) (c s : list N) : out (list N) :=
+  match c with
+  | [] => OK []
+  | x :: c' =>
+      let a := match tbl with (_, a) :: _ => a | [] => AClient end in
+      let y := match s with y :: _ => y | [] => x end in
+      dO v <- apply_scalar a x y;
+      dO r <- merge_rest (tl tbl) c' (tl s);
+      OK (v :: r)
+  end.
+
+(* the `inner` closure for fields and methods (a struct literal completed by `..client.clone()`):
+   the spelled-out fields as written — the client's access and annotations, name and descriptor by
+   merge_eq, the deprecated / synthetic flags by merge_from_client (assert) — and every other field
+   as its row of [tbl] (field_rest_table resp. method_rest_table) says *)
+Definition merge_member (tbl : table) (c s : member) : out member :=
   dO n <- merge_eq str_eqb (m_name c) (m_name s);
   dO d <- merge_eq str_eqb (m_desc c) (m_desc s);
   dO dp <- from_client Bool.eqb (m_depr c) (m_depr s);
   dO sy <- from_client Bool.eqb (m_synth c) (m_synth s);
-  OK (mkMember n d (m_access c) dp sy (m_inv c) (m_rest c)).
+  dO rest <- merge_rest tbl (m_rest c) (m_rest s);
+  OK (mkMember n d (m_access c) dp sy (m_inv c) rest).
 
-Definition merge_members (client server : list member) : out (list member) :=
-  merge_slice key_eqb member_eqb mkey (fun m s => OK (mark_member m s)) merge_member client server.
+Definition merge_members (tbl : table) (client server : list member) : out (list member) :=
+  merge_slice key_eqb member_eqb mkey (fun m s => OK (mark_member m s)) (merge_member tbl) client server.
 
 Definition inner_eqb : (str * N) -> (str * N) -> bool := peqb str_eqb N.eqb.
 Definition merge_inner (client server : list (str * N)) : out (list (str * N)) :=
@@ -225,17 +263,18 @@ Definition class_merge (c s : aclass) : out aclass :=
   dO access <- from_client N.eqb (c_access c) (c_access s);
   dO name <- merge_eq str_eqb (c_name c) (c_name s);
   dO super <- merge_eq (oeqb str_eqb) (c_super c) (c_super s);
-  dO fields <- merge_members (c_fields c) (c_fields s);
-  dO methods <- merge_members (c_methods c) (c_methods s);
+  dO fields <- merge_members field_rest_table (c_fields c) (c_fields s);
+  dO methods <- merge_members method_rest_table (c_methods c) (c_methods s);
   dO depr <- from_client Bool.eqb (c_depr c) (c_depr s);
   dO synth <- from_client Bool.eqb (c_synth c) (c_synth s);
   dO inner <- merge_inner (unwrap_or_default (c_inner c)) (unwrap_or_default (c_inner s));
+  dO rest <- merge_rest class_rest_table (c_rest c) (c_rest s);
   let marks := itf_marks itfs (c_itfs c) (c_itfs s) in
   OK (mkClass version access name super itfs fields methods depr synth
         (match inner with [] => None | _ => Some inner end)
         (c_vis c)
         (match marks with [] => c_inv c | _ => c_inv c ++ [AItfs marks] end)
-        (merge_perm (c_perm c) (c_perm s)) (c_rec c) (c_rest c)).
+        (merge_perm (c_perm c) (c_perm s)) (c_rec c) rest).
 
 (* visit_sided_annotation: class-level mark in RuntimeVisibleAnnotations *)
 Definition mark_class (c : aclass) (s : side) : aclass :=
@@ -290,25 +329,38 @@ Fixpoint add_keys (sd : side) (es : list entry) (t : list (str * comb)) : out (l
 Definition key_table (client server : jar) : out (list (str * comb)) :=
   dO t <- add_keys Client client []; add_keys Server server t.
 
-Definition ends_with (suf s : str) : bool := starts_with (rev suf) (rev s).
-
-(* string constants of merge.rs *)
-Definition s_manifest : str := [77;69;84;65;45;73;78;70;47;77;65;78;73;70;69;83;84;46;77;70].  (* META-INF/MANIFEST.MF *)
+(* string constants of merge.rs: the manifest's name and replacement bytes and the two skip rules are
+   regenerated from the source (C13/MergeGen.v); the four below are only used to build examples and to
+   state what the regenerated rules are today (Theory3.rules_today) *)
+Definition s_manifest : str := g_manifest_name.                                              (* META-INF/MANIFEST.MF *)
 Definition s_metainf : str := [77;69;84;65;45;73;78;70;47].                                  (* META-INF/ *)
 Definition s_SF : str := [46;83;70].                                                         (* .SF *)
 Definition s_RSA : str := [46;82;83;65].                                                     (* .RSA *)
 Definition s_class : str := [46;99;108;97;115;115].                                          (* .class *)
 Definition s_minecraft : str := [110;101;116;47;109;105;110;101;99;114;97;102;116;47].       (* net/minecraft/ *)
-(* b"Manifest-Version: 1.0\nMain-Class: net.minecraft.client.Main\n" *)
-Definition manifest_bytes : list N :=
-  [77;97;110;105;102;101;115;116;45;86;101;114;115;105;111;110;58;32;49;46;48;10;
-   77;97;105;110;45;67;108;97;115;115;58;32;110;101;116;46;109;105;110;101;99;114;97;102;116;46;
-   99;108;105;101;110;116;46;77;97;105;110;10].
+Definition manifest_bytes : list N := g_manifest_bytes.
 
-Definition is_signature (name : str) : bool :=
-  starts_with s_metainf name && (ends_with s_SF name || ends_with s_RSA name).
-Definition is_server_library (name : str) : bool :=
-  ends_with s_class name && negb (starts_with s_minecraft name) && mem_N cSLASH name.
+(* the two skip rules, as the code decides them: the regenerated predicate trees evaluated on the name *)
+Definition is_signature (name : str) : bool := peval g_signature_rule name.
+Definition is_server_library (name : str) : bool := peval g_library_rule name.
+
+(* impl JarEntry for ZipFile (zip_impls.rs to_jar_entry_enum): what kind of entry a zip archive's
+   entry is, decided by its name alone — zip's is_dir (last character '/' or '\'), then `.class` *)
+Inductive ekind := KDir | KClass | KOther.
+Definition zip_kind (name : str) : ekind :=
+  match rev name with
+  | c :: _ => if N.eqb c 47 || N.eqb c 92 then KDir else if ends_with s_class name then KClass else KOther
+  | [] => if ends_with s_class name then KClass else KOther
+  end.
+
+(* what the entry loop does with a name, given which jars have it: the verdict is a function of the
+   name and the two membership bits alone *)
+Inductive verdict := VManifest | VSignature | VLibrary | VKept.
+Definition name_verdict (name : str) (in_client in_server : bool) : verdict :=
+  if str_eqb name s_manifest then VManifest
+  else if is_signature name then VSignature
+  else if negb in_client && in_server && is_server_library name then VLibrary
+  else VKept.
 
 (* an entry only one side has: try_map_both(visit_sided_annotation, get_data_owned) *)
 Definition one_side (e : entry) (sd : side) : out ocontent :=
